@@ -4,7 +4,7 @@ import itertools
 from collections import namedtuple
 
 from .model import AnalysisError, NotConst, fold, node_src, is_self_attr, call_name
-from .paths import Interp, Domain, Env, TOP, NONE, Const, TupleV, Exc, ORD, fmt_trace, Opaque
+from .paths import Interp, Domain, Env, TOP, NONE, Const, TupleV, Exc, ORD, fmt_trace, Opaque, FuncRef
 from .report import walk_no_nested
 
 LEVEL = "other"
@@ -28,6 +28,7 @@ Comp = namedtuple("Comp", "of")
 Decomp = namedtuple("Decomp", "of")
 FlagOr = namedtuple("FlagOr", "base bits")
 Obj = namedtuple("Obj", "kind a b")
+PartialV = namedtuple("PartialV", "fn args kwargs")
 
 # exact-type classes: name -> (is exact builtin?, base)
 TYPES = ["bytes", "str", "int", "bool", "float", "NoneType", "list", "dict", "tuple", "MyStr(str)", "MyInt(int)", "MyBytes(bytes)", "object"]
@@ -49,6 +50,8 @@ class SerDomain(Domain):
             return state.get(name)
         if name in ("bytes", "str", "int", "bool", "float", "list", "dict", "tuple", "object", "bytearray"):
             return TypeTag(name)
+        if name in self.module.functions:
+            return FuncRef(name)
         if name in self.module.assigns:
             try:
                 return Const(fold(self.module.assigns[name], self.module))
@@ -59,6 +62,8 @@ class SerDomain(Domain):
     def attr_load(self, objval, node, state):
         if isinstance(node.value, ast.Name) and node.value.id in ("pickle", "zlib"):
             return Opaque("%s.%s" % (node.value.id, node.attr))
+        if is_self_attr(node):
+            return state.get("self." + node.attr, TOP)
         if objval is TOP:
             return TOP
         return ("meth", objval, node.attr)
@@ -132,6 +137,21 @@ class SerDomain(Domain):
             return [("ok", Enc("str", None, Sym("value")), state)]
         if name.startswith("logging."):
             return [("ok", NONE, state)]
+        if name in ("partial", "functools.partial") and args and isinstance(args[0], FuncRef):
+            return [("ok", PartialV(args[0].name, tuple(args[1:]), tuple(sorted(kwargs.items()))), state)]
+        target, pargs, pkw = None, (), {}
+        if isinstance(fval, FuncRef):
+            target = fval.name
+        elif isinstance(fval, PartialV):
+            target, pargs, pkw = fval.fn, fval.args, dict(fval.kwargs)
+        if target in self.module.functions:
+            # a module-level function (an extracted pickling / unpickling step, or the serializer reached through a
+            # partial stored on the instance): interpreted in line
+            kw = dict(pkw)
+            kw.update(kwargs)
+            res = self.inline(node, self.module.functions[target], list(pargs) + list(args), kw, state)
+            if res is not None:
+                return res
         return [("ok", TOP, state)]
 
 
@@ -294,17 +314,36 @@ def run(chk):
     r6 = chk.rule("C15.R6", "the pickle_version given to PickleSerde / get_python_memcache_serializer is the protocol passed to pickle.Pickler")
     ps = prog.cls("PickleSerde")
     init = prog.method(ps, "__init__")
-    g = prog.function(SER, "get_python_memcache_serializer")
-    ok1 = any(isinstance(c, ast.Call) and call_name(c) == "get_python_memcache_serializer" and c.args and isinstance(c.args[0], ast.Name) and c.args[0].id == init.pos_params()[0].name for c in walk_no_nested(init.node))
-    part = [c for c in walk_no_nested(g.node) if isinstance(c, ast.Call) and call_name(c) == "partial"]
-    ok2 = len(part) == 1 and part[0].args and isinstance(part[0].args[0], ast.Name) and part[0].args[0].id == ser.name and any(k.arg == ser.pos_params()[2].name and isinstance(k.value, ast.Name) and k.value.id == g.pos_params()[0].name for k in part[0].keywords)
-    pk = [c for c in walk_no_nested(ser.node) if isinstance(c, ast.Call) and call_name(c) in ("pickle.Pickler", "pickle.dumps")]
-    ok3 = len(pk) == 1 and any((isinstance(a, ast.Name) and a.id == ser.pos_params()[2].name) for a in list(pk[0].args[1:]) + [k.value for k in pk[0].keywords])
-    r6.expect(ok1 and ok2 and ok3, "PickleSerde(pickle_version) -> partial(serializer, pickle_version=...) -> Pickler(output, pickle_version)", "serde:pickle-version-wiring", "the configured pickle protocol does not reach pickle.Pickler (%s)" % ("PickleSerde.__init__" if not ok1 else "get_python_memcache_serializer" if not ok2 else "_python_memcache_serializer"), fn=ser)
     ps_ser = prog.method(ps, "serialize")
     ps_des = prog.method(ps, "deserialize")
-    ok = any(isinstance(c, ast.Call) and call_name(c) == "python_memcache_deserializer" for c in walk_no_nested(ps_des.node)) and any(isinstance(c, ast.Call) and call_name(c) == "self._serialize_func" for c in walk_no_nested(ps_ser.node))
-    r6.expect(ok, "PickleSerde pairs the serializer with python_memcache_deserializer", "PickleSerde:pairing", "PickleSerde no longer pairs _python_memcache_serializer with python_memcache_deserializer", fn=ps_ser)
+    # interpreted: PickleSerde(pickle_version=pv).serialize(key, <object>) must pickle with protocol pv, and
+    # .deserialize(key, stored, FLAG_PICKLE) must unpickle
+    d0 = SerDomain(prog, init, "object")
+    ip = [p.name for p in init.pos_params()]
+    o0 = Interp(d0, init.node, prog).run(Env({ip[0]: Sym("pickle_version")}) if ip else Env())
+    protos, problems = set(), []
+    for s0, v0, t0 in o0.of("ret"):
+        inst = {k: v for k, v in s0.d.items() if isinstance(k, str) and k.startswith("self.")}
+        d1 = SerDomain(prog, ps_ser, "object")
+        sp = [p.name for p in ps_ser.pos_params()]
+        env = dict(inst)
+        env.update({sp[0]: Sym("key"), sp[1]: Sym("value")})
+        for s1, v1, t1 in Interp(d1, ps_ser.node, prog).run(Env(env)).of("ret"):
+            enc = v1.items[0] if isinstance(v1, TupleV) and len(v1.items) == 2 else None
+            if isinstance(enc, Enc) and enc.kind == "pickle":
+                protos.add(enc.param)
+            else:
+                problems.append("serialize returns %s for an arbitrary object" % (v1,))
+    if not o0.of("ret"):
+        problems.append("PickleSerde.__init__ does not complete")
+    ok6 = not problems and protos == {Sym("pickle_version")}
+    r6.expect(ok6, "PickleSerde(pickle_version).serialize pickles with exactly that protocol", "serde:pickle-version-wiring", "the configured pickle protocol does not reach the pickler: an object is pickled with protocol %s%s" % (sorted(map(str, protos)) or "<nothing>", ("; " + "; ".join(problems)) if problems else ""), fn=ser)
+    d2 = SerDomain(prog, ps_des, "object")
+    dp = [p.name for p in ps_des.pos_params()]
+    o2 = Interp(d2, ps_des.node, prog).run(Env({dp[0]: Sym("key"), dp[1]: Sym("stored"), dp[2]: Const(flags.get("FLAG_PICKLE", 1))}))
+    decs = {v for s2, v, t in o2.of("ret")}
+    ok = bool(decs) and all(isinstance(v, Dec) and v.kind == "unpickle" or v == NONE for v in decs) and any(isinstance(v, Dec) for v in decs)
+    r6.expect(ok, "PickleSerde.deserialize(.., FLAG_PICKLE) unpickles", "PickleSerde:pairing", "PickleSerde.deserialize does not unpickle an item written with FLAG_PICKLE (it yields %s)" % sorted(map(str, decs)), fn=ps_des)
     chk.assume("pickle, utf8 encode/decode, decimal text/int and the configured compressor are inverse pairs on their domains (library semantics)")
     chk.assume("the inner serde of CompressedSerde is one whose output type is decided by R4 (pickle_serde by default)")
 
